@@ -6,7 +6,7 @@ import random
 from . import net as vnet
 
 
-def scenario(rng, stops=None, kinds=("wfq-str", "drr-str", "sp", "port-wire-loss", "red", "fattree", "hub", "switch")):
+def scenario(rng, stops=None, kinds=("wfq-str", "drr-str", "sp", "port-wire-loss", "red", "fattree", "hub", "switch", "sched-monitor")):
     """stops: None = one uninterrupted run; a list = the run is split by run(until=t) / step() calls
     (["num", t] / ["steps", n]); the trace must not depend on it (C03)"""
     kind = rng.choice(list(kinds))
@@ -20,7 +20,24 @@ def scenario(rng, stops=None, kinds=("wfq-str", "drr-str", "sp", "port-wire-loss
             trace.append((env.now, str(p.flow_id), p.packet_id, p.size))
 
     sink = Sink()
-    if kind in ("wfq-str", "drr-str", "sp"):
+    horizon = None
+    mon = None
+    if kind == "sched-monitor":
+        # a scheduler watched by a Monitor that samples periodically up to a horizon well after the traffic has ended:
+        # the samples are part of the observable trace
+        from onl.scheduler import DRR, WFQ, SP, Monitor
+        which = rng.choice(["DRR", "WFQ", "SP"])
+        tbl = {f: rng.choice([1, 2, 3]) for f in range(3)}
+        s = {"DRR": DRR, "WFQ": WFQ, "SP": SP}[which](env, 8000.0, tbl)
+        s.out = sink
+        arr = vnet.gen_arrivals(rng, 3, "float", rng.randint(5, 30), [100, 333, 1000], None, burst_p=0.5)
+        for a in arr:
+            a["age"] = 0
+        net.drivers(s, arr)
+        step_ = rng.choice([0.37, 0.5, 1.13])
+        mon = Monitor(env, s, lambda: step_, service_included=rng.random() < 0.5)
+        horizon = max(a["t"] for a in arr) + rng.choice([20, 40])
+    elif kind in ("wfq-str", "drr-str", "sp"):
         from onl.scheduler import WFQ, DRR, SP
         names = ["alpha", "beta", "gamma", "delta", "eps"][: rng.randint(2, 5)]
         f2c = lambda f: names[f % len(names)]
@@ -102,6 +119,8 @@ def scenario(rng, stops=None, kinds=("wfq-str", "drr-str", "sp", "port-wire-loss
         for st in stops:
             if env.peek() == float("inf"):
                 break
+            if horizon is not None and st[0] == "num" and st[1] >= horizon:
+                continue
             if st[0] == "num":
                 if st[1] > env.now:
                     err = net.run(until=st[1])
@@ -112,9 +131,14 @@ def scenario(rng, stops=None, kinds=("wfq-str", "drr-str", "sp", "port-wire-loss
                         trace.append(("stop-at-wrong-time", st[1], env.now))
             else:
                 for _ in range(st[1]):
-                    if env.peek() == float("inf"):
+                    if env.peek() == float("inf") or (horizon is not None and env.peek() >= horizon):
                         break
                     env.step()
-    err = net.run()
+    if horizon is not None:
+        err = net.run(until=horizon) if env.now < horizon else None
+        for f in sorted(mon.sizes):
+            trace.append(("monitor", f, len(mon.sizes[f]), tuple(mon.sizes[f][-5:]), tuple(mon.byte_sizes[f][-5:])))
+    else:
+        err = net.run()
     trace.append(("end", err))
     return kind, trace
